@@ -67,6 +67,11 @@ func nativeMapToObject(val any) Object {
 
 	valValue := reflect.ValueOf(val)
 
+	// only the keys of a string kind are property names
+	if valValue.Type().Key().Kind() != reflect.String {
+		return nil
+	}
+
 	for _, key := range valValue.MapKeys() {
 		pair := NativeToObject(valValue.MapIndex(key).Interface())
 
